@@ -19,7 +19,7 @@ import kanirun  # noqa: E402
 import registry  # noqa: E402
 import structrun  # noqa: E402
 import verusrun  # noqa: E402
-from common import (EVIDENCE, EXIT_OK, EXIT_UNDECIDED, EXIT_VIOLATION, KNOWN_FINDINGS, REPLAY_DIR, VERIF, log,  # noqa: E402
+from common import (CACHE, EVIDENCE, EXIT_OK, EXIT_UNDECIDED, EXIT_VIOLATION, KNOWN_FINDINGS, REPLAY_DIR, VERIF, log,  # noqa: E402
                     make_scratch, read, repo_rev, rmtree, write_json)
 
 TRUSTED_BASE = [
@@ -110,6 +110,11 @@ def main():
                 cmds.append(kcmd)
                 results.update(kres)
                 raw["kani"] = kout[-6000:]
+                os.makedirs(os.path.join(CACHE, "logs"), exist_ok=True)
+                with open(os.path.join(CACHE, "logs", "%s-%s-kani.log" % (prop, args.tier)), "w") as f:
+                    f.write(kout)
+                if any(r.get("errors") for r in kres.values()):
+                    log("\n".join(l for l in kout.splitlines() if l.startswith("error"))[:3000])
             except kanirun.KaniError as e:
                 for o in k_obls:
                     results[o.id] = dict(status="undecided", reason=str(e), failed=[], undecided=[], n_checks=0,
